@@ -25,12 +25,36 @@ CHECKS = {
             "transactions commit (with yields between the memtable inserts of a batch), log cuts inside the byte range of a final commit, commits on a closed engine, rollbacks, buffer reuse.",
             "torn writes are simulated by truncation of a cleanly stopped database; plain (non-transactional) scans concurrent with a commit are outside the statement",
             "DESIGN.md 5/C03"),
+    "C04": ("exploration",
+            "porcupine linearizability check of recorded transaction histories against a model whose single operation is a whole transaction (= strict serializability) + inline own-write/repeatable-read checks",
+            "3-8 concurrent clients run read-only and read-write transactions (gets, full/range scans, puts, deletes, commit/rollback, pauses, yields at the lock/commit hook sites); per transaction the "
+            "external read set, write set, outcome and begin/finish times are recorded at the client boundary; porcupine searches a serial order consistent with real time.",
+            "no non-transactional writes during a history; porcupine timeout => inconclusive",
+            "DESIGN.md 5/C04"),
     "C05": ("exploration",
             "runtime differential monitor: batteries of scan/seek queries vs a sorted model at checkpoints of generated programs; concurrent scanners vs stable keys",
             "Full/range/prefix/suffix scans, Seek+Next runs, SeekToLast on engine, read-only and read-write transaction iterators (own writes overlaid) compared with the sorted model for data spread "
             "over memtables, immutable memtables and (multi-block) SSTables; concurrent scans must be ascending, duplicate-free and contain every stable key.",
             "deletion markers surfaced by engine iterators are legal; thorough tier runs under the race detector",
             "DESIGN.md 5/C05"),
+    "C06": ("exploration",
+            "porcupine linearizability check (partitioned by key, register model with 'absent', failed writes as no-ops) of client-boundary histories recorded under rotation-heavy configurations with injected yields",
+            "4-12 clients on 2-6 keys with unique values, memtables of 1 byte..4KB (switch/flush/rotation every few writes), background compaction and an extra flush/compaction goroutine, yields at "
+            "the hook sites between log append, memtable insert, switch, rotation and flush publication; a final read of every key pins exactly-once.",
+            "many short histories; Close concurrent with calls out of scope",
+            "DESIGN.md 5/C06"),
+    "C07": ("exploration",
+            "Go race detector (-race, checkptr) over a reflection-driven stress of every public entry point + hang watchdog with goroutine dump + post-stress lock probe",
+            "8-24 goroutines call every method of *EngineFacade found by reflection plus transactions with iterators, registry begin/get/remove/sweep/cleanup with short deadlines, batches, flush, "
+            "compaction, range compaction, statistics and WAL accessors on tiny-memtable engines; any race report, fatal error, panic, non-zero exit or a case exceeding 120s is a violation.",
+            "reports de-duplicated by the first kevo frames of both stacks; the detector sees only executed interleavings",
+            "DESIGN.md 5/C07"),
+    "C08": ("exploration",
+            "online monotonicity monitor (statistics + next log sequence sampled after every call, across restarts) + offline log read-back ordering check + real-time-order vs sequence check on concurrent histories + post-crash check",
+            "Sequential programs with flushes, rotations, compactions, restarts, batches/transactions; kill-at-hook-site recoveries followed by a write; concurrent histories where for every pair "
+            "A.return < B.call seq(A) < seq(B) (sequences read back from the log through unique values).",
+            "a restart after the log was retired completely restarts the counter (finding D36, exercised by a dedicated deterministic case)",
+            "DESIGN.md 5/C08"),
     "C09": ("exploration",
             "runtime differential monitor on pkg/wal: appended list vs ReplayWALDir / per-file replay / GetEntriesFrom",
             "Generated append/batch/with-sequence sequences with lengths on both sides of every format boundary, rotation and reuse points, all sync modes; replay must return exactly the appended list.",
@@ -54,12 +78,49 @@ CHECKS = {
             "(a delete marker may vanish only if no older version remains anywhere), files strictly ascending; reads compared with the model after reopening with the log retired.",
             "file recency = documented naming (level, creation time); background compaction off in 70% of cases so one compaction is bracketed",
             "DESIGN.md 5/C12"),
+    "C13": ("exploration",
+            "apply-log monitor (recording applier + prefix/order oracle) under generated hostile delivery schedules, at the batch-applier level and with the real Replica against a scripted gRPC primary; codec round trips",
+            "Histories of single operations and transactions delivered with splits, duplicates, overlaps, gaps, swaps, stream resets; every applied entry must be the next history entry (or an idempotent "
+            "stutter inside the current transaction), nothing skipped after an honest tail, reported applied sequence monotone and never ahead.",
+            "messages cut at unit boundaries; mid-transaction splits are a separate class (finding D44); apply errors not injected",
+            "DESIGN.md 5/C13"),
+    "C14": ("exploration",
+            "bounded-progress monitor over real primary/replica managers on loopback: scenario matrix (workload x join time x restart/link cut x 1-2 replicas), full-scan equality within 60s and again 2s later",
+            "Real engines and replication.Manager instances; workloads with single writes, >100 entries, multi-key and >=100-operation transactions, log rotation on the primary, large values; "
+            "replicas join before/during/after, are restarted on the same directory or lose their link through a controllable TCP proxy.",
+            "liveness judged as bounded progress (60s >= 10x normal)",
+            "DESIGN.md 5/C14"),
+    "C15": ("exploration",
+            "latency/progress monitor on a real primary next to fault-injected peers (never-reading, slow, non-acking, NACKing, flapping, TCP-stalled/cut through a proxy), topology and convergence checks",
+            "A client workload of several MB (4KB values, gets, transactions) runs while misbehaving peers are attached alone or next to healthy acknowledging peers; every call must return without "
+            "error, progress must not stop for 10s (witness: parked kevo goroutines), peers whose connection ended must leave the reported topology within 3x the heartbeat timeout, healthy replicas converge.",
+            "bounded liveness; 'dropped from the topology' judged for ended connections only (see D23b in DESIGN.md)",
+            "DESIGN.md 5/C15"),
+    "C16": ("exploration",
+            "reflection-enumerated call monitor between state snapshots on a real replica + concurrent applier-vs-clients monitor + node-info comparison",
+            "Every method of *EngineFacade, the transaction interface and the generated service client is called on a replica made read-only by a real replication.Manager: mutators must fail with a "
+            "read-only error and leave scan and log position unchanged; an applier goroutine applies a generated stream through the real EngineApplier while clients hammer the mutators and a sampler "
+            "watches the read-only flag; GetNodeInfo of standalone/primary/replica managers is compared with the configuration.",
+            "flush/compaction requests are maintenance, only required to leave data unchanged",
+            "DESIGN.md 5/C16"),
+    "C17": ("exploration",
+            "protocol monitor (two-state machine per transaction) + lock-leak probe after every scenario (fresh read-write transaction within 10s) over embedded, registry and service transactions",
+            "Generated finish/use-after-finish sequences, concurrent clients, abandonment cleaned by the exported sweep / connection cleanup / shutdown, begin requests whose deadline expires while "
+            "the lock is held, failed commits (closed storage), invalid service arguments mid-transaction.",
+            "a client holding a transaction while requesting another is excluded; the 30s ticker is bypassed by calling the exported sweep",
+            "DESIGN.md 5/C17"),
     "C18": ("exploration",
             "Go race detector + runtime reference-model monitor on pkg/memtable (sequential and one-writer/many-readers with a published-prefix protocol)",
             "Arbitrary insert/delete sequences with non-monotone and repeated sequence numbers checked for max-sequence Get, (key asc, seq desc) iteration, Seek, immutability; concurrent readers "
             "must see sorted traversals containing everything inserted before they started; MemTablePool under concurrent switching; all under -race.",
             "single writer (as the engine guarantees); ties accept any tied entry",
             "DESIGN.md 5/C18"),
+    "C19": ("exploration",
+            "runtime differential monitor: generated gRPC request sequences through the real service (bufconn) vs the sequential map + sorted scan model; lock probe after every rejected request",
+            "get/put/delete/batch write/scan with every option combination/transactions by handle/node info incl. boundary sizes (key 0/1/4096/4097, value 10MB/10MB+1, batch 1000/1001), unknown and "
+            "finished handles; rejected requests must leave data and lock state unchanged.",
+            "scan option precedence as documented; TxGet with an invalid key may release its transaction (either outcome followed)",
+            "DESIGN.md 5/C19"),
     "C20": ("exploration",
             "runtime differential monitor: Validate vs an independent restatement of the constraints; save/load round trip; directory snapshots; truncated/invalid manifests at engine open",
             "Thousands of boundary configurations: Validate()==nil iff the documented constraints hold; invalid => nothing written; valid => field-for-field round trip; a database reopens with its "
